@@ -76,6 +76,17 @@ TEMPLATES = {
                      '<case value="1"><field name="y" type="char" optional="true"/></case></switch>', False),
     "switchoptopt": ('<field name="k{i}" type="char"/><switch field="k{i}"><case value="1"><field name="y" type="char" optional="true"/>'
                      '</case></switch><field name="o{i}" type="short" optional="true"/>', False),
+    "boolint": ('<field name="f{i}" type="bool:int"/>', False),
+    "str1p": ('<field name="f{i}" type="string" length="1" padded="true"/>', False),
+    "str0": ('<field name="f{i}" type="string" length="0"/><field name="g{i}" type="char"/>', False),
+    "lenarrSneg": ('<length name="n{i}" type="char" offset="-1"/><array name="f{i}" type="S" length="n{i}"/>', False),
+    "switchenumover": ('<field name="k{i}" type="W:three"/><switch field="k{i}"><case value="Hi"><field name="x" type="char"/></case>'
+                       '<case value="7"><field name="y" type="byte"/></case></switch>', False),
+    "switch0": ('<field name="k{i}" type="short"/><switch field="k{i}"><case value="5"><field name="x" type="char"/></case>'
+                '<case value="0"><field name="z" type="three"/></case><case value="3"/></switch>', False),
+    "empty": ('', False),          # an object without instructions (at top: an empty struct)
+    "str0dummy": ('<field name="f{i}" type="string" length="0"/><dummy type="short">5</dummy>', False),
+    "arrSF": ('<array name="f{i}" type="SF"/>', False),
     "optchar": ('<field name="f{i}" type="char" optional="true"/>', False),
     "optstr": ('<field name="f{i}" type="string" optional="true"/>', False),
     "optenum": ('<field name="f{i}" type="E" optional="true"/>', False),
@@ -111,10 +122,11 @@ TEMPLATES = {
 SUPPORT += """
   <struct name="O"><field name="p" type="char"/><field name="o" type="short" optional="true"/></struct>
   <struct name="CO"><chunked><field name="c" type="char"/><field name="o" type="char" optional="true"/></chunked></struct>
+  <struct name="SF"><field name="p" type="char"/><field name="s" type="string" length="3" padded="true"/></struct>
   <struct name="SX"><field name="p" type="char" optional="false"/><array name="q" type="char" length="2" optional="false" delimited="false"/></struct>
 """
 
-POSITIONS = ["top", "chunked", "case", "chunkedcase", "afterchunked", "nestedchunked", "casechunked"]
+POSITIONS = ["top", "chunked", "case", "chunkedcase", "afterchunked", "nestedchunked", "casechunked", "afterbreak"]
 
 
 def body_xml(names, position):
@@ -132,6 +144,9 @@ def body_xml(names, position):
         return f'<chunked><field name="sel" type="char"/><switch field="sel"><case value="1">{seq}</case></switch></chunked>'
     if position == "afterchunked":
         return f'<chunked><field name="c0" type="string"/></chunked>{seq}'
+    if position == "afterbreak":
+        # after an own chunked section that ends with a <break>: unchunked, unsanitised again, and wire-unambiguous
+        return f'<chunked><field name="c0" type="string"/><break/></chunked>{seq}'
     if position == "nestedchunked":
         return f'<chunked><field name="c0" type="string"/><break/><chunked>{seq}</chunked></chunked>'
     if position == "casechunked":
